@@ -212,7 +212,9 @@ impl ParsedFields<'_, '_> {
 
     fn render_source_as_enum_variant_match_arm(&self) -> Option<TokenStream> {
         let source = self.source?;
-        let pattern = self.data.matcher(&[source], &[quote! { source }]);
+        let pattern = self
+            .data
+            .matcher(&[self.data.field_indexes[source]], &[quote! { source }]);
         let expr = render_some(quote! { source });
         Some(quote! { #pattern => #expr })
     }
@@ -252,7 +254,9 @@ impl ParsedFields<'_, '_> {
 
         match self.source {
             Some(source) if source == backtrace => {
-                let pattern = self.data.matcher(&[source], &[quote! { source }]);
+                let pattern = self
+                    .data
+                    .matcher(&[self.data.field_indexes[source]], &[quote! { source }]);
                 Some(quote! {
                     #pattern => {
                         // TODO: Use `derive_more::core::error::Error` once `error_in_core` Rust
@@ -263,7 +267,10 @@ impl ParsedFields<'_, '_> {
             }
             Some(source) => {
                 let pattern = self.data.matcher(
-                    &[source, backtrace],
+                    &[
+                        self.data.field_indexes[source],
+                        self.data.field_indexes[backtrace],
+                    ],
                     &[quote! { source }, quote! { backtrace }],
                 );
                 Some(quote! {
@@ -276,7 +283,10 @@ impl ParsedFields<'_, '_> {
                 })
             }
             None => {
-                let pattern = self.data.matcher(&[backtrace], &[quote! { backtrace }]);
+                let pattern = self.data.matcher(
+                    &[self.data.field_indexes[backtrace]],
+                    &[quote! { backtrace }],
+                );
                 Some(quote! {
                     #pattern => {
                         request.provide_ref::<::std::backtrace::Backtrace>(backtrace);
@@ -331,7 +341,7 @@ fn parse_fields<'input, 'state>(
 
             parsed_fields.source = parsed_fields
                 .source
-                .or_else(|| infer_source_field(&state.fields, &parsed_fields));
+                .or_else(|| infer_source_field(&parsed_fields.data.fields, &parsed_fields));
 
             Ok(parsed_fields)
         }
@@ -343,7 +353,7 @@ fn parse_fields<'input, 'state>(
         add_bound_if_type_parameter_used_in_type(
             &mut parsed_fields.bounds,
             type_params,
-            &state.fields[source].ty,
+            parsed_fields.data.field_types[source],
         );
     }
 
@@ -412,7 +422,7 @@ where
 
     let source = parse_field_impl(
         &is_valid_default_field_for_attr,
-        state.fields.len(),
+        fields.len(),
         iter.clone(),
         "source",
         |info| info.source,
@@ -420,7 +430,7 @@ where
 
     let backtrace = parse_field_impl(
         &is_valid_default_field_for_attr,
-        state.fields.len(),
+        fields.len(),
         iter.clone(),
         "backtrace",
         |info| info.backtrace,
